@@ -14,7 +14,7 @@ from vlib import sh2, log
 
 OPN = {0: "nop", 1: "insert", 2: "delete", 3: "overwrite", 4: "prepend", 5: "append", 6: "duplicate",
        7: "move", 8: "remove", 9: "newfile", 10: "file={\"nodes\":[]}\\n", 11: "emptydir",
-       12: "file=tree-blob-bytes", 13: "filler"}
+       12: "file=tree-blob-bytes", 13: "filler", 14: "duplicate-latest"}
 MAXCHUNK = 65536
 
 
@@ -71,6 +71,10 @@ def gen_case(rng, kind, thorough):
                 ops = [(rng.choice([6, 7]), rng.randrange(64), rng.randrange(5), 0, 0) for _ in range(rng.randrange(1, 3))]
             elif r < 0.4:
                 ops = [gen_edit(rng, nfiles), (rng.choice([10, 11, 12]), rng.randrange(5), rng.randrange(64), 0, 0)]
+            elif r < 0.5:
+                # identical new content twice (or three times) inside one backup
+                ops = [(9, rng.randrange(5), rng.randrange(3), rng.choice([100, 30000, 200000]), rng.randrange(1, 2 ** 40))]
+                ops += [(14, 0, rng.randrange(5), 0, 0) for _ in range(rng.randrange(1, 3))]
             else:
                 ops = [gen_edit(rng, nfiles) for _ in range(rng.randrange(1, 4))]
             steps.append((ops, 1 if rng.random() < 0.7 else 0))
@@ -115,7 +119,7 @@ def parse_backup(seg):
         e = {"op": int(tk[i + 1]), "name": tk[i + 2], "off": int(tk[i + 3]), "rem": int(tk[i + 4]),
              "ins": int(tk[i + 5]), "oldlen": int(tk[i + 6])}
         i += 7
-        if e["op"] in (6, 7):
+        if e["op"] in (6, 7, 14):
             e["name2"] = tk[i]; i += 1
         edits.append(e)
     assert tk[i] == "Z"
@@ -210,7 +214,7 @@ def run(ctx):
     hist = {"backups": 0, "packs_written": 0, "blobs_stored": 0, "rebackups_unchanged": 0, "ops": {},
             "in_run_duplicates": 0, "cross_type_ids": 0, "locality_checked": 0, "resync_chunks": {},
             "parent_based_backups": 0, "dedup_partial_backups": 0, "summary_mismatch": 0}
-    viol, mlines, mref, samples = [], [], [], []
+    viol, mlines, mref, samples, reload_mismatch = [], [], [], [], []
     nontriv = set()
 
     def bad(what, case, k, detail):
@@ -280,6 +284,14 @@ def run(ctx):
             nd, nt = sum(n for (t, _), n in STORED.items() if t == 0), sum(n for (t, _), n in STORED.items() if t == 1)
             if (b["data_blobs"], b["tree_blobs"]) != (nd, nt):
                 hist["summary_mismatch"] += 1
+            # the index the NEXT fresh handle loads = loaded index + the packs of this run (model: `reload`)
+            if prev is not None and prev.get("expect_next_G") is not None and G != prev["expect_next_G"]:
+                lost = sorted(prev["expect_next_G"] - G)[:10]; extra = sorted(G - prev["expect_next_G"])[:10]
+                if lost:
+                    bad("index entries present after the previous backup are gone at the next open", case, k, str(lost))
+                else:
+                    reload_mismatch.append((case, k, str(extra)))
+            b["expect_next_G"] = G | set(STORED)
             # (a) unchanged data adds nothing, same tree id
             if prev is not None and not b["edits"]:
                 hist["rebackups_unchanged"] += 1
@@ -359,7 +371,7 @@ def run(ctx):
                 "rule": "case = seeded source tree (0..8 files up to 1.5 MB, rabin avg 8 KiB / min 4 KiB / max 64 KiB, data packs from one blob per pack to 4 MB) + an edit script of 2..6 steps, each step 0..3 ops then a backup through a fresh Repository handle (70% forced full read, 30% with parent); evaluation = one backup; non-trivial = a backup that stored new blobs while other blobs of the new state were already in the loaded index",
                 "samples": samples, "distribution": hist, "cases": len(cases),
                 "traces_validated_against_impl": len([x for x in mref if x is not None]),
-                "disagreements_checked": len(mism) + len(viol), "model_impl_mismatches": len(mism), "oracle_violations": len(viol)})
+                "disagreements_checked": len(mism) + len(viol), "model_impl_mismatches": len(mism) + len(reload_mismatch), "oracle_violations": len(viol)})
     tag = os.path.basename(os.path.dirname(impl))
     for what, case, k, detail in viol[:20]:
         ctx.violation(what, {"case_line": case, "backup_index": k, "detail": detail,
@@ -368,6 +380,9 @@ def run(ctx):
     if mism and not viol:
         ctx.violation("correspondence broken: an observed backup is not a run of the extracted model (%d backups)" % len(mism),
                       {"first": {"case_line": mism[0][0], "backup_index": mism[0][1], "model": mism[0][2]}}, no_input=True)
+    if reload_mismatch and not viol and not mism:
+        ctx.violation("correspondence broken: the index loaded by the next handle is not `reload` of the model (%d backups)" % len(reload_mismatch),
+                      {"first": {"case_line": reload_mismatch[0][0], "backup_index": reload_mismatch[0][1], "extra": reload_mismatch[0][2]}}, no_input=True)
     if hist["summary_mismatch"] and not viol and not mism:
         ctx.violation("correspondence broken: SnapshotSummary.data_blobs/tree_blobs differ from the blobs in the written packs (%d backups)" % hist["summary_mismatch"],
                       {}, no_input=True)
